@@ -114,6 +114,20 @@ type FuncContract struct {
 	AllocBound *Clause
 	Forbids    []string
 	Decreases  *Clause
+	Implements string // named function type whose "(T).call" contract this function is verified against (and may stand in for)
+}
+
+// GuardDecl: lock discipline of a struct field ("guarded T.f by mu": every access needs the object's mutex held by the
+// current call, unless the object was allocated in this call; "immutable T.f": written only on objects allocated in this
+// call) or of a package variable ("onceguarded v by once": written only inside the function literal handed to once.Do,
+// read only after a call of once.Do in the same function).
+type GuardDecl struct {
+	Type, Field string
+	Mutex       string // "" for immutable
+	Once        string // for package variables
+	Props       []string
+	File        string
+	Line        int
 }
 
 type ContractFile struct {
@@ -123,6 +137,7 @@ type ContractFile struct {
 	Axioms     []*Axiom
 	Funcs      []*FuncContract
 	Ghosts     []GhostField
+	Guards     []GuardDecl
 }
 
 // GhostField: "ghost field T.name sort" adds a specification-only component to a named struct type.
@@ -600,6 +615,7 @@ var clauseKW = map[string]bool{
 	"requires": true, "ensures": true, "assigns": true, "loop": true, "safety": true,
 	"props": true, "trusted": true, "inline": true, "pure": true, "maypanic": true, "nobody": true,
 	"extern": true, "opaque": true, "uses": true, "allocbound": true, "forbids": true, "decreases": true, "invariant": true, "defines": true, "assumes": true, "proves": true, "wraparound": true, "reveals": true, "trustedframe": true,
+	"guarded": true, "immutable": true, "implements": true, "onceguarded": true,
 }
 
 type rawClause struct {
@@ -673,6 +689,37 @@ func ParseContractFile(path string) (*ContractFile, error) {
 			j := strings.IndexByte(f[1], '.')
 			cf.Ghosts = append(cf.Ghosts, GhostField{f[1][:j], f[1][j+1:], f[2]})
 			cur = nil
+		case "guarded", "immutable", "onceguarded":
+			// guarded T.f, T.g by mu for C20 | immutable T.f, T.g for C20 | onceguarded v, w by once for C20
+			text := rc.text
+			var props []string
+			if j := strings.Index(text, " for "); j >= 0 {
+				props = strings.Fields(text[j+5:])
+				text = text[:j]
+			}
+			by := ""
+			if j := strings.Index(text, " by "); j >= 0 {
+				by = strings.TrimSpace(text[j+4:])
+				text = text[:j]
+			}
+			if (rc.kw != "immutable") != (by != "") || len(props) == 0 {
+				return nil, fail(fmt.Errorf("expected: guarded T.f[, T.g] by mu for Cxx | immutable T.f[, ...] for Cxx | onceguarded v[, w] by once for Cxx"))
+			}
+			for _, it := range strings.Split(text, ",") {
+				it = strings.TrimSpace(it)
+				gd := GuardDecl{Props: props, File: path, Line: rc.line}
+				if rc.kw == "onceguarded" {
+					gd.Field, gd.Once = it, by
+				} else {
+					j := strings.IndexByte(it, '.')
+					if j <= 0 {
+						return nil, fail(fmt.Errorf("expected Type.field, got %q", it))
+					}
+					gd.Type, gd.Field, gd.Mutex = it[:j], it[j+1:], by
+				}
+				cf.Guards = append(cf.Guards, gd)
+			}
+			cur = nil
 		case "spec", "pred", "uf":
 			sf, err := parseSpecFunc(rc.kw, rc.text)
 			if err != nil {
@@ -721,6 +768,8 @@ func ParseContractFile(path string) (*ContractFile, error) {
 				cur.Props = append(cur.Props, strings.Fields(rc.text)...)
 			case "trustedframe":
 				cur.TrustFrame = true
+			case "implements":
+				cur.Implements = strings.TrimSpace(rc.text)
 			case "uses":
 				cur.Uses = append(cur.Uses, strings.Fields(rc.text)...)
 			case "reveals":
